@@ -50,22 +50,64 @@ def current():
             text = open(m.group(1)).read().splitlines()[int(m.group(2)) - 1].strip()
         except Exception:
             text = '?'
-        msg = re.sub(r"\{aka '[^']*'\}\s*", '', m.group(4))
+        # canonical types: `'X' {aka 'Y'}` -> `'Y'`, so that a typedef spelled differently is the same kind
+        msg = re.sub(r"[‘'][^‘’']*[’'] \{aka [‘']([^‘’']*)[’']\}", r"'\1'", m.group(4))
+        msg = msg.replace('‘', "'").replace('’', "'")
         out.add((f, text, msg))
     return sorted(out), p.returncode
 
+NARROW = re.compile(r'(?<![\w:<,])(?:const\s+)?((?:std::)?u?int(?:8|16|32)_t|unsigned(?:\s+(?:int|short|char))?|int|short|float)\s+(?:\w+::)*\w+\s*(?:=|;|\{|:\s*\d+|\)|,)')
+
+def narrow_declarations():
+    """(file | declared type) -> number of variables / members / parameters / bit-fields declared with an integer type
+    narrower than 64 bits in /repo/include (casts and template arguments are not declarations and are not counted)"""
+    import glob
+    d = {}
+    inc = os.path.join(core.REPO, 'include')
+    for f in sorted(glob.glob(os.path.join(inc, '**', '*.hpp'), recursive=True)):
+        src = open(f).read()
+        src = re.sub(r'//[^\n]*', '', src); src = re.sub(r'/\*.*?\*/', '', src, flags=re.S)
+        for m in NARROW.finditer(src):
+            k = os.path.relpath(f, core.REPO) + ' | declares ' + ' '.join(m.group(1).split())
+            d[k] = d.get(k, 0) + 1
+        for m in re.finditer(r':\s*(\d+)\s*;', src):          # bit-fields
+            if int(m.group(1)) < 64:
+                k = os.path.relpath(f, core.REPO) + ' | declares bit-field'
+                d[k] = d.get(k, 0) + 1
+    return d
+
+def counts(cur):
+    """(file, message) -> number of distinct source lines carrying that implicit conversion.  Comparing counts rather
+    than line texts keeps a harmless rename or re-indentation of an already-known conversion from raising an alarm."""
+    d = {}
+    for f, text, msg in cur:
+        d.setdefault(f + ' | ' + msg, set()).add(text)
+    return d
+
 def new_conversions():
-    """list of (file, source line, message) not in the baseline"""
+    """list of (file, source line(s), message) for every (file, message) kind that occurs on more source lines than in
+    the baseline (a kind absent from the baseline counts as 0)"""
     lock = os.path.join(core.VERIF, 'narrowing.lock.json')
-    base = set(tuple(x) for x in json.load(open(lock))) if os.path.exists(lock) else set()
+    base = json.load(open(lock)) if os.path.exists(lock) else {}
     cur, rc = current()
-    return [c for c in cur if tuple(c) not in base], len(cur)
+    out = []
+    for k, texts in sorted(counts(cur).items()):
+        if len(texts) > base.get(k, 0):
+            f, msg = k.split(' | ', 1)
+            out.append((f, ' ;; '.join(sorted(texts))[:300], msg))
+    for k, n in sorted(narrow_declarations().items()):
+        if n > base.get(k, 0):
+            f, msg = k.split(' | ', 1)
+            out.append((f, '%d declaration(s), baseline %d' % (n, base.get(k, 0)), msg + ' (an integer narrower than 64 bits)'))
+    return out, len(cur)
 
 if __name__ == '__main__':
     cur, rc = current()
     if len(sys.argv) > 1 and sys.argv[1] == '--write-baseline':
-        json.dump(cur, open(os.path.join(core.VERIF, 'narrowing.lock.json'), 'w'), indent=1)
-        print('baseline written:', len(cur), 'implicit conversions')
+        base = {k: len(v) for k, v in sorted(counts(cur).items())}
+        base.update(narrow_declarations())
+        json.dump(base, open(os.path.join(core.VERIF, 'narrowing.lock.json'), 'w'), indent=1)
+        print('baseline written:', len(cur), 'implicit conversions of', len(counts(cur)), 'kinds')
     else:
         for c in new_conversions()[0]:
             print('NEW', c)
